@@ -176,7 +176,9 @@ def run(pid, tier, seed):
                                   {"source": "scheduler (outcome not in the model)", "flavour": fl, "g0": sc["g0"], "prog": sc["prog"], "outcome": o,
                                    "grant_sequence": oc["a_grant_sequence"], "tlc_reasons": reasons})
     # free-running stress: 4 threads of random connect / scan / degree calls on 3 shared nodes (a mix whose pairwise
-    # combinations have no known finding): must return, not panic, and leave exactly the performed connects, mirrored
+    # combinations have no known finding): must return, not panic, and leave exactly the performed connects, mirrored;
+    # every second round is a churn round (one mutator creating / connecting / disconnecting / dropping short-lived
+    # neighbours, three readers): handle drops are not part of Locks.tla, this is where a neighbour dying under a reader is seen
     ST = dict(quick=(12, 300), thorough=(300, 1000))[tier]
     stress_events = 0
     for fl, directed in FLAVOURS.items():
@@ -190,8 +192,11 @@ def run(pid, tier, seed):
             raise ToolError("TraceLocks did not consume %s: %s (%s)" % (tr, rr.violation, rr.out_file))
         for ln, reasons in sorted(dict(vlib.parse_tla_tuple_prints(rr.prints, "REJECT")).items()):
             ev = json.loads(lines[ln - 1])
-            rep.violation("%s:stress(connect+scan+degree):%s" % (fl, "+".join(sorted(reasons))),
-                          "%s: free-running round %d (4 threads x %d random connect/scan/degree calls): %s" % (fl, ln, ST[1], ", ".join(reasons)),
+            churn = bool(ev.get("churn"))
+            rep.violation("%s:stress(%s):%s" % (fl, "churn+readers" if churn else "connect+scan+degree", "+".join(sorted(reasons))),
+                          "%s: free-running round %d (%s): %s" % (fl, ln, "1 thread creating / connecting / disconnecting / dropping short-lived "
+                          "neighbours of 3 shared nodes while 3 threads iterate and search them in both directions" if churn else
+                          "4 threads x %d random connect/scan/degree calls" % ST[1], ", ".join(reasons)),
                           {"source": "free-running stress", "flavour": fl, "event": {k: ev[k] for k in ev if k != "connects"}, "tlc_reasons": reasons})
     rep.cov["free_running_stress_rounds_validated_by_tlc"] = stress_events
     # liveness of the design (weak fairness, small constants, no state constraint): every run ends
